@@ -326,6 +326,8 @@ def units(tier, seed):
         u.append({"name": f"enum-contexts{k}", "kind": "ctx", "slice": k, "of": 5})
     u.append({"name": "enum-prefix-pairs", "kind": "pairs"})
     u += [{"name": f"hyp{k:02d}", "kind": "hyp", "n": n} for k in range(9)]
+    if tier != "quick":
+        u.append({"name": "atheris0", "kind": "atheris", "runs": 6000})
     return u
 
 
@@ -365,5 +367,13 @@ def run_unit(unit, seed, rec, tier):
                 rec.bulk(6, 6, {"prefix-pair-rows": 6})
         rec.samples.append({"prefix_pair": list(pairs[0]), "text": text})
         rec.exhaustive.append(f"all {len(pairs)} ordered prefix pairs of published names x 4 registered-name sets")
+    elif k == "atheris":
+        from ..harness import atheris_unit
+
+        atheris_unit(ID, rec, unit["runs"], seed)
     else:
         hyp_run(rec, c06_case(), check_case, unit["n"], seed, render=render_case)
+
+
+def FUZZ_TARGET():
+    return c06_case(), check_case
